@@ -126,11 +126,6 @@ Definition mon_isolation (c : str) (r : preq) (es : list entry) : bool :=
 
 (** del_retry: a DEL invokes the saved networks in reverse, saves exactly the failed ones again *)
 Definition okey (o : osaved) : str * str := (os_tag o, os_if o).
-Fixpoint failed_of {A} (l : list A) (k : nat) (fd : list bool) : list A :=
-  match l with
-  | [] => []
-  | x :: r => if nth_bool fd k then x :: failed_of r (S k) fd else failed_of r (S k) fd
-  end.
 Definition mon_del (before : option (list osaved)) (after : option (list osaved)) (fd : list bool)
            (es : list entry) (ok : bool) : bool :=
   forallb (fun e => negb (is_add e)) es &&
